@@ -43,6 +43,11 @@ fn gsome[T](x: T) -> Opt[T] { Some_(x) }
 fn gor[T](o: Opt[T], d: T) -> T { match o { Some_(x) => x, None_ => d } }
 fn gpair[T, U](a: T, b: U) -> (T, U) { (a, b) }
 fn gtwo[T, U](a: T, b: U) -> Two[U, T] { Two { l: b, r: a } }
+fn fact(n: int32) -> int32 { if n <= 1 { 1 } else { n * fact(n - 1) } }
+fn is_ev(n: int32) -> bool { if n == 0 { true } else { is_od(n - 1) } }
+fn is_od(n: int32) -> bool { if n == 0 { false } else { is_ev(n - 1) } }
+fn mkt(n: int32) -> (int32, bool) { (n + 1, n > 1) }
+fn fst2(p: (int32, int32)) -> int32 { p.0 }
 """
 
 # features: name -> (statements, int32 expression) over `k`; local names start with q
@@ -87,6 +92,21 @@ FEATURES = {
     "method": ("let qp = P { a: k, b: true };", "qp.sum(2) + P::sum(qp, 1)"),
     "if_chain": ("", "(if k > 5 { 1 } else { if k > 1 { k } else { 0 } })"),
     "int_match": ("", "(match k { 0 => 10, 1 => 11, 3 => 13, _ => k })"),
+    "recursion": ("", "fact(k + 2) + (if is_ev(k + 4) { 1 } else { 0 })"),
+    "shadow": ("let qs = k; let qs = qs + 1; let qs = qs * 2;", "qs"),
+    "string_cmp": ("", '(if "ab" + int32_to_string(k) < "ab3" { 1 } else { 2 }) + (if int32_to_string(k) == "3" { 10 } else { 20 })'),
+    "string_get": ("", 'string_len(string_get("hello", 1) + "x") + k'),
+    "array_set": ("let qa = [1, 2, 3]; let qa2 = array_set(qa, 1, k);", "array_get(qa2, 1) * 10 + array_get(qa, 1)"),
+    "ref_struct": ("let qr = ref(P { a: k, b: true }); let _ = ref_set(qr, P { a: ref_get(qr).a + 1, b: false });", "ref_get(qr).a"),
+    "vec_struct": ("let qv: Vec[P] = vec_new(); let qv = vec_push(qv, P { a: k, b: true });", "vec_get(qv, 0).a + vec_len(qv)"),
+    "nested_pat": ("", "(match (B(k), C(true, 2)) { (B(qn), C(true, qm)) => qn + qm, (A, _) => 0, _ => 1 })"),
+    "bool_ops": ("", "(if !(k > 1) || k == 0 { 1 } else { 0 }) + (if k > 0 && k < 10 { 2 } else { 3 })"),
+    "uint8_wrap": ("let qu: uint8 = 250u8; let qw = qu + 10u8;", "(if qw < 10u8 { k } else { 0 })"),
+    "int64": ("let ql: int64 = 4000000000i64; let qm = ql * 2i64;", "(if qm > 7000000000i64 { k } else { 0 })"),
+    "tuple_ret": ("let qt: (int32, bool) = mkt(k);", "(if qt.1 { qt.0 } else { 0 - qt.0 })"),
+    "unit_value": ("let qu = (); let _ = qu;", "k"),
+    "struct_nested": ("let qt: Two[P, (int32, int32)] = Two { l: P { a: k, b: true }, r: (1, k) }; let ql2: P = qt.l; let qr2: (int32, int32) = qt.r;", "ql2.a + qr2.1"),
+    "enum_in_struct": ("let qt: Two[E, E] = Two { l: B(k), r: A };", "(match qt.l { B(qn) => qn, _ => 0 }) + (match qt.r { A => 1, _ => 2 })"),
     # unit-valued statements whose value is discarded: some arms do nothing, others have an effect
     "unit_match_lit": ('let _ = match k { 0 => (), _ => string_println("other") };', "k"),
     "unit_match_lit2": ('let _ = match k { 0 => string_println("zero"), 3 => (), _ => () };', "k + 1"),
@@ -143,6 +163,17 @@ POSITIONS = {
     "let_tuple": ("", '{S} let (pa, _) = ({X}, pi("lw", 2)); pa'),
     "let_tuple2": ("", '{S} let (_, pb) = (pi("lv", 1), {X}); pb'),
     "to_string": ("", "{S} string_len(int32_to_string({X}))"),
+    "string_concat": ("", '{S} string_len("a" + int32_to_string({X}) + "b")'),
+    "cmp_operand": ("", "{S} if {X} == k {{ 1 }} else {{ 0 }}"),
+    "array_set_val": ("", "{S} array_get(array_set([1, 2], 0, {X}), 0)"),
+    "vec_index": ("", "{S} let pv2: Vec[int32] = vec_push(vec_new(), 8); vec_get(pv2, {X} - {X})"),
+    "tuple_fn_arg": ("", "{S} fst2(({X}, 1))"),
+    "recursive_arg": ("", "{S} fact({X} - {X} + 3)"),
+    "nested_if": ("", "if k >= 0 {{ if k < 100 {{ {S} {X} }} else {{ 1 }} }} else {{ 2 }}"),
+    "nested_while": ("", "let pc = ref(0); let ps = ref(0); while ref_get(pc) < 2 {{ let pd = ref(0); while ref_get(pd) < 2 {{ {S} let _ = ref_set(ps, ref_get(ps) + {X}); ref_set(pd, ref_get(pd) + 1) }}; ref_set(pc, ref_get(pc) + 1) }}; ref_get(ps)"),
+    "arm_block_let": ("", "match B(k) {{ A => 0, B(pn) => {{ let pm = pn + 1; {S} pm + {X} }}, C(_, _) => 1 }}"),
+    "closure_in_arm": ("", "match k {{ 77 => 0, _ => {{ let pf = |py: int32| {{ {S} py + {X} }}; pf(1) }} }}"),
+    "closure_in_while": ("", "let pc = ref(0); let ps = ref(0); while ref_get(pc) < 2 {{ let pf = |py: int32| {{ {S} py + {X} }}; let _ = ref_set(ps, ref_get(ps) + pf(1)); ref_set(pc, ref_get(pc) + 1) }}; ref_get(ps)"),
     "fn_body": ("fn h{N}(k: int32) -> int32 {{ {S} {X} }}\n", "h{N}(k)"),
     "generic_fn_body": ("fn gh{N}[T](t: T, k: int32) -> int32 {{ let _ = gid(t); {S} {X} }}\n", 'gh{N}(true, k) + gh{N}("s", k)'),
     "method_body": ("struct M{N} {{ k: int32 }}\nimpl M{N} {{ fn run(self: M{N}) -> int32 {{ let k: int32 = self.k; {S} {X} }} }}\n", "M{N} {{ k: k }}.run()"),
